@@ -1,5 +1,11 @@
 //! vh — runtime-monitoring harness for r-nacos (see /verif/DESIGN.md).
 //! Every sub-command links the real library built from /repo's working tree.
+mod c09;
+mod c10;
+mod c11;
+mod c12;
+mod c13;
+mod c14;
 mod c17;
 mod c20;
 mod grpcc;
@@ -22,6 +28,12 @@ fn main() {
         "store-session" => store::run(&args),
         "node-session" => node::run(&args),
         "c17-func" => c17::run(&args),
+        "c09" => c09::run(&args),
+        "c10" => c10::run(&args),
+        "c11" => c11::run(&args),
+        "c12" => c12::run(&args),
+        "c13" => c13::run(&args),
+        "c14" => c14::run(&args),
         "grpc-client" => grpcc::run(&args),
         _ => {
             eprintln!("unknown sub-command {}", sub);
